@@ -34,7 +34,9 @@ Section ExecUnk.
     | u_action t : (tk t = KAction \/ tk t = KVoid) -> txt t = [] -> ucls ms t
     | u_brace t : tk t = KSpecial -> (txt t = s_lbrace \/ txt t = s_rbrace) -> ucls ms t
     | u_special t v : tk t = KSpecial -> inert_txt t = true ->
-                      assoc (txt t) (t_special_values T) = Some v -> ucls ms t.
+                      assoc (txt t) (t_special_values T) = Some v -> ucls ms t
+    (* text generated from a macro body: pinned to the call *)
+    | u_gen t : pfix t = true -> gtok T t -> ucls ms t.
 
   (* names of the undeclared control words, in order *)
   Definition names (toks : list tok) : list str :=
@@ -147,9 +149,12 @@ Section ExecUnk.
     (* a space token: all its characters are white space *)
     split; [reflexivity|].
     change (nst (t :: plains pre)) with (ns (txt t) ++ nst (plains pre)). rewrite I2, app_nil_r.
-    inversion Ht as [? He| | | | |]; subst; try congruence;
-      try (match goal with X : _ \/ _ |- _ => destruct X; congruence end).
-    destruct He as [_ Hk]. rewrite Ek in Hk. destruct Hk as (c & r & Et & Hc & Hall).
+    assert (Hg : gtok T t).
+    { inversion Ht; subst; try congruence;
+        try (match goal with X : _ \/ _ |- _ => destruct X; congruence end);
+        try (apply etok_gtok; assumption); try assumption. }
+    destruct Hg as [_ Hk]. cbn [tk txt pos pfix mk] in Hk.
+    rewrite Ek in Hk. destruct Hk as (c & r & Et & Hc & Hall).
     apply ns_all_space. rewrite forallb_forall in Hall. apply forallb_forall.
     intros a Ha. rewrite <- Hsp. apply Hall, Ha.
   Qed.
